@@ -193,6 +193,17 @@ CLAIMED['C07'] = dict(
          'compositions), thorough up to 7; long file-backed data sets use concrete content.',
     design='5/C07')
 
+CLAIMED['C02'] = dict(
+    text='Differential symbolic execution against an independent, strictly length-driven reference codec (vt/refs/ps38.py, '
+         'written from PS3.8 9.3 / PS3.7 Annex D) in the same path: (A) for the structured values of C01 with symbolic '
+         'fields the reference parser applied to the library bytes yields exactly the fields, every nested length field '
+         'delimits its bytes, total_length = bytes emitted, AE titles space-padded; (B) reference-encoded PDUs the library '
+         'never produces itself - user sub-items in every order (all 81 ordered pairs + a third), unknown sub-item types, '
+         '0..3 transfer syntaxes, 1..3 PDVs, space-padded titles, non-zero reserved fields - decode to the field values. '
+         'Catches errors made symmetrically in encode and decode, which round-trip checks (C01) cannot see.',
+    note=TRUSTED + 'The reference codec is part of the trusted base (about 250 lines, no import from the library); bounds as C01.',
+    design='5/C02')
+
 NOT_YET = 'check not built yet in this revision (see DESIGN.md section 5 for the plan)'
 
 NOT_APPLICABLE = {}
